@@ -42,8 +42,16 @@ type Plan struct {
 	Dice      []float64     `json:"dice,omitempty"`
 	Horizon   time.Duration `json:"horizon"`
 	SnapEvery time.Duration `json:"snap_every"`
+	Hammers   []Hammer      `json:"hammers,omitempty"`
 	HangFor   time.Duration `json:"hang_for,omitempty"` // duration of a timed-out request (default 5s, the JetStream default wait)
 	Note      string        `json:"note,omitempty"`
+	// NoQuiesce: the controller never calls synctest.Wait during the run (race-detector plans: since Go 1.25
+	// the detector models synctest.Wait as synchronisation with every goroutine of the bubble, which would
+	// hide races between activities separated by a controller step). No snapshots are taken then.
+	NoQuiesce bool `json:"no_quiesce,omitempty"`
+	// AllowUncleanRestart lets a plan Start an election object again after a stop call that returned while
+	// the object's goroutines were still running (regression plans of the known WaitGroup-reuse finding).
+	AllowUncleanRestart bool `json:"allow_unclean_restart,omitempty"`
 }
 
 type Inst struct {
@@ -166,4 +174,15 @@ func (p *Plan) hangFor() time.Duration {
 		return p.HangFor
 	}
 	return 5 * time.Second
+}
+
+// Hammer: N concurrent caller goroutines that issue API calls on one instance
+// during [From, To), pausing Gap of virtual time between calls (C20).
+type Hammer struct {
+	Inst  int           `json:"inst"`
+	From  time.Duration `json:"from"`
+	To    time.Duration `json:"to"`
+	N     int           `json:"n"`
+	Gap   time.Duration `json:"gap"`
+	Calls []string      `json:"calls"` // isleader leaderid token status validate validateordemote register
 }
